@@ -255,3 +255,27 @@ func ListTwoElements(b buffer.Buffer, v1 int32, v2 int64) (int32, int64, int, er
 	r2, _, err := decode.DecodeInt64(l.GetBytes(1))
 	return r1, r2, 2, err
 }
+
+// MessageAbsentField (C16): a reader asking for a tag the writer did not write gets the zero value,
+// size 0, no error and presence false; the written fields are undisturbed (MessageTwoFields).
+func MessageAbsentField(b buffer.Buffer, t1, t2, t3 uint16, v1 int32, v2 int64) (int32, int, bool, error) {
+	b.Reset()
+	n1, err := encode.EncodeInt32(b, v1)
+	if err != nil {
+		return 0, 0, false, err
+	}
+	n2, err := encode.EncodeInt64(b, v2)
+	if err != nil {
+		return 0, 0, false, err
+	}
+	table := []format.MessageField{{Tag: t1, Offset: uint32(n1)}, {Tag: t2, Offset: uint32(n1 + n2)}}
+	if _, err := encode.EncodeMessageTable(b, n1+n2, table); err != nil {
+		return 0, 0, false, err
+	}
+	m, err := types.OpenMessageErr(b.Bytes())
+	if err != nil {
+		return 0, 0, false, err
+	}
+	r, n, err := decode.DecodeInt32(m.FieldRaw(t3))
+	return r, n, m.HasField(t3), err
+}
